@@ -379,4 +379,4 @@ def replay(path, seed):
         print("oracle:", why or "accepts")
         print("model vs implementation:", "agree" if diff is None else f"differ at step {diff[0]}: impl {diff[1]} model {diff[2]}")
         return 1 if (why or diff) else 0
-    return 0
+    return 2   # not a kind of record this function knows how to replay (the driver then re-runs the check)
